@@ -40,7 +40,7 @@ RULES = [
     Rule('C02.S2', 'MPFR engine methods: refuse Fractions, (prec,n) from ctx, one _mpfr_eval with the matching primitive', E.s2_mpfr_methods('C02'), 50, 'S,T'),
     Rule('C02.F1', 'round-to-odd wrapper: RoundToZero, prec+2 digits, ternary of the fixed value, sticky fold', E.f1_round_to_odd, 12, 'F'),
     Rule('C02.F2', 'every callable handed to the wrapper is a single MPFR operation', E.f2_single_operation('C02'), 15, 'F'),
-    Rule('C02.S3', 'local MPFR wrappers compute the operation they are named after (neg, abs, pow, lgamma = first component of gmp.lgamma)', E.s3_wrapper_primitives, 4, 'S,T'),
+    Rule('C02.S3', 'local MPFR wrappers compute the operation they are named after (neg, abs, pow, lgamma = first component of gmp.lgamma); special operands reach MPFR with their sign', E.s3_wrapper_primitives, 4, 'S,T'),
     Rule('C02.G1', 'helper-answered MPFR methods: _mod takes floor of a quotient kept to the units digit and subtracts exactly; _fdim is one subtraction at (prec, n); special-operand tables', E.g1_helper_methods, 14, 'G,T'),
     Rule('C02.M1', 'a remembered engine result is keyed by every input it was computed from', memo_keys_rule(('fpy2/number/engine/', 'fpy2/number/gmputils.py', 'fpy2/ops.py'), 'operands, precision and digit position'), 1, 'M'),
     Rule('C02.T1', 'RealEngine: ceil/floor/trunc/roundint = RTP/RTN/RTZ/RNA at n=-1; sub, fma composed of exact ops', E.t1_real_engine, 9, 'T'),
@@ -52,6 +52,8 @@ from ..selftest import Mutant  # noqa: E402
 OPS, GMP, REAL, GU = E.OPS, E.GMP, E.REAL, E.GMPUTILS
 
 MUTANTS = [
+    Mutant('nan-operand-loses-its-sign', 'fpy2/number/gmputils.py', "            return gmp.set_sign(gmp.nan(), x.s)", "            return gmp.nan()", 'C02.S3',
+           'finding F79 before its repair: copysign(3, -NaN) is +3'),
     Mutant('sub-is-add-of-a-rounded-negation', 'fpy2/ops.py', "    xr = _cvt_to_real(x)\n    yr = _cvt_to_real(y)\n    for engine in ENGINES:\n        r = engine.sub(xr, yr, ctx)\n        if r is not None:\n            r = _zero_sum(r, ctx, (_is_negative(xr), not _is_negative(yr)))\n            return _normalize(r, ctx, (xr, yr))\n\n    raise NotImplementedError(f'sub() not implemented for ctx={ctx}')",
            "    return add(x, neg(y, ctx), ctx)", 'C02.S1', 'seeded change C02d: the negation is rounded before the sum is'),
     Mutant('fdim-is-a-rounded-sub-then-max', 'fpy2/ops.py', "    xr = _cvt_to_real(x)\n    yr = _cvt_to_real(y)\n    for engine in ENGINES:\n        r = engine.fdim(xr, yr, ctx)\n        if r is not None:\n            return _normalize(r, ctx, (xr, yr))\n\n    raise NotImplementedError(f'fdim() not implemented for ctx={ctx}')",
